@@ -1562,6 +1562,77 @@ def compile_template(
     return template
 
 
+def _dump_without_context(node: ast.AST) -> str:
+    return re.sub(r"ctx=(Load|Store|Del)\(\)", "", ast.dump(node))
+
+
+def _fill_wildcards(source: str, bindings: Mapping[str, ast.AST | str]) -> str:
+    """Replace every {{name}} in source with the code of what it is bound to.
+
+    An expression is put in parentheses where the code around the wildcard would otherwise take it
+    apart, for example `a or b` filled into `not {{x}}`.
+    """
+    pieces = re.split(r"\{\{(\w+)\}\}", source)  # Text, name, text, name, ..., text
+    texts = pieces[::2]
+    names = pieces[1::2]
+    fillings = [unparse(bindings[name]) for name in names]
+
+    def fill(parenthesized: Collection[int]) -> str:
+        filled = [texts[0]]
+        for i, (filling, text) in enumerate(zip(fillings, texts[1:])):
+            filled.append(f"({filling})" if i in parenthesized else filling)
+            filled.append(text)
+        return "".join(filled)
+
+    plain = fill(())
+    expressions = {i for i, name in enumerate(names) if isinstance(bindings[name], ast.expr)}
+    if not expressions:
+        return plain
+
+    # The tree that is meant: the template, with the bound trees where the wildcards are.
+    slots = {f"pyrefact_wildcard_slot_{i}": i for i in expressions}
+    slot_names = {i: slot for slot, i in slots.items()}
+    try:
+        intended = ast.parse(textwrap.dedent("".join(
+            text + (slot_names.get(i, fillings[i]) if i < len(names) else "")
+            for i, text in enumerate(texts)
+        )))
+    except (SyntaxError, ValueError):
+        return plain
+
+    class _FillSlots(ast.NodeTransformer):
+        def visit_Name(self, node):
+            if node.id in slots:
+                expressions_in_place.add(slots[node.id])
+                return bindings[names[slots[node.id]]]
+            return node
+
+    expressions_in_place = set()
+    intended = _dump_without_context(_FillSlots().visit(intended))
+    try:
+        if _dump_without_context(ast.parse(textwrap.dedent(plain))) == intended:
+            return plain
+    except (SyntaxError, ValueError):
+        pass
+
+    parenthesized = set(expressions_in_place)
+    for i in sorted(expressions_in_place):
+        try:
+            candidate = ast.parse(textwrap.dedent(fill(parenthesized - {i})))
+        except (SyntaxError, ValueError):
+            continue
+        if _dump_without_context(candidate) == intended:
+            parenthesized.discard(i)
+
+    try:
+        if _dump_without_context(ast.parse(textwrap.dedent(fill(parenthesized)))) == intended:
+            return fill(parenthesized)
+    except (SyntaxError, ValueError):
+        pass
+
+    return plain
+
+
 def format_template(source: str, template_match: NamedTuple, **callables) -> str:
     template_match_asdict = template_match._asdict() if hasattr(template_match, "_asdict") else {}
     # It's ok that some of the template_match isn't used, just like str.format()
@@ -1575,11 +1646,7 @@ def format_template(source: str, template_match: NamedTuple, **callables) -> str
         raise ValueError(f"Unfilled wildcards found in source: {unfilled_wildcards}")
 
     # All at once. What is filled in may itself contain {{something}}, in a string for example.
-    source = re.sub(
-        r"\{\{(\w+)\}\}",
-        lambda wildcard: unparse(template_match_asdict[wildcard.group(1)]),
-        source,
-    )
+    source = _fill_wildcards(source, template_match_asdict)
 
     for callable_slot in re.finditer(r"\{\{\w+\((\w+,?)+\)\}\}", source):
         callable_slot_text = callable_slot.group()
